@@ -480,18 +480,15 @@ impl Symbol {
                     write!(s, "@{member}").map_err(|e| anyhow!("IO error!: {}", e))?;
                 }
                 if let Some(user_type) = u {
-                    let alias =
-                        if let Some(alias) = user_type_resolver(user_type.to_string().as_str()) {
-                            alias
-                        } else if let Some(nt_type) = user_type_resolver(n) {
-                            nt_type
-                        } else {
-                            // No alias and no %nt_type definition found, the type was given
-                            // directly at this occurrence
-                            user_type.to_string()
-                        };
-                    if alias != "%nt_type" && alias != "%t_type" {
-                        // Don't print user type if it is the globally defined type
+                    let user_type = user_type.to_string();
+                    // The type is implied if it is the one the %nt_type declaration of this
+                    // non-terminal defines. A clipped symbol can't carry a type in PAR syntax.
+                    let implied_by_nt_type = user_type_resolver(format!("%nt_type:{n}").as_str())
+                        .is_some_and(|nt_type| nt_type == user_type);
+                    if !implied_by_nt_type && *a != SymbolAttribute::Clipped {
+                        let alias = user_type_resolver(user_type.as_str())
+                            .filter(|alias| alias != "%nt_type" && alias != "%t_type")
+                            .unwrap_or(user_type);
                         write!(s, " : {alias}").map_err(|e| anyhow!("IO error!: {}", e))?;
                     }
                 }
